@@ -94,8 +94,6 @@ class SpecArray(object):
     @property
     def dd(self):
         """Direction resolution float."""
-        if self._dd is not None:
-            return self._dd
         if self.dir is not None and len(self.dir) > 1:
             dd = abs(float(self.dir[1] - self.dir[0])) % 360
             self._dd = min(dd, 360 - dd)
